@@ -51,8 +51,25 @@ impl MemFs {
     }
 }
 
+/// One file has one identity however its path is written: `.` and `..` are resolved lexically,
+/// as a real file system resolves them (without symbolic links).
+fn normalized(path: &Path) -> PathBuf {
+    let mut out = PathBuf::new();
+    for c in path.components() {
+        match c {
+            std::path::Component::CurDir => {}
+            std::path::Component::ParentDir => {
+                out.pop();
+            }
+            other => out.push(other),
+        }
+    }
+    out
+}
+
 impl FileSystem for MemFs {
     fn assign_or_get_file_id(&mut self, path: FilePath) -> FileId {
+        let path = FilePath(normalized(&path.0));
         match self.file_set.file_for_path(&path) {
             Some(id) => id,
             None => {
@@ -69,7 +86,7 @@ impl FileSystem for MemFs {
     }
 
     fn read_content(&self, file_path: &FilePath) -> Option<String> {
-        self.contents.get(&file_path.0).cloned()
+        self.contents.get(&normalized(&file_path.0)).cloned()
     }
 }
 
